@@ -85,6 +85,11 @@ def gen_leaf(rng, nvars, falsy, vocab):
     if k == 'contains':
         return (rng.choice(['contains', 'in']), ('attr', rng.randrange(nvars), 'tags'),
                 ('lit', rng.choice([0, 1, 2] if falsy else [1, 2, 3])))
+    if k == 'member':
+        # a literal container on the left, the variable's value as the item (the variable is the comparator's right side)
+        pool = [0, 1, 2, 3] if falsy else [1, 2, 3]
+        return (rng.choice(['contains', 'in']), ('lit', sorted(rng.sample(pool, rng.choice([1, 2])))),
+                ('attr', rng.randrange(nvars), 'size'))
     if k == 'pred':
         return (rng.choice(['pred_fn', 'pred_cls']), rng.randrange(nvars), rng.choice([0, 1, 2]))
     raise ValueError(k)
